@@ -39,6 +39,20 @@ CLAIMS = {
         technique="grammar/table scan + must-drain/must-raise dataflow on the error callback and parse_sql"),
 }
 
+CLAIMS["C13"] = dict(
+    level="other", engine="pyflow",
+    text="Exhaustiveness analysis over the finite AST class x child-field matrix and all visit sites of the hand-written "
+         "walker: every reachable class with child fields is dispatched, every child-carrying field (derived from the "
+         "class's own printers) is visited exactly once, in the textual order of the class's SQL printer, with "
+         "is_table/is_target exactly at table/target positions, parent_query = enclosing statement, the result stored back "
+         "into exactly the location read, optional fields guarded, and the callback called once before any descent. "
+         "Exhaustive over all 79+ AST classes / 14 branches / 40 sites; decides the structure of the walker, which fixes "
+         "its behaviour on every tree the parsers can build.",
+    note="Assumes a field holds child nodes iff the class's own to_tree/get_string/to_string call a node method on it or "
+         "its elements (name-only fields are exempted in a table with one reason each); run-time attributes attached from "
+         "outside are not modelled.",
+    technique="class x field exhaustiveness matrix + visit-site model (flags, order vs printer, store-back taint)")
+
 NA_PENDING = "check under construction in this session; not claimed until its rule module is committed"
 
 
